@@ -12,7 +12,7 @@ T = {
  "C07": ("Coq theorem: the seven keys are the slices of prf+(SKEYSEED, Ni|Nr|SPIi|SPIr) for all 27 suites (generic), objects keyed with them; DH agreement", "Coq proof (stateful PrfPlus = RFC prf+) + differential correspondence"),
  "C08": ("Coq theorems: Child SA keys are slices of prf+(SK_d, Ni|Nr); identical after any history of derivations", "Coq proof (invariant over operation histories) + histories on one Go object"),
  "C09": ("Coq theorems: primes = RFC formula, g^x mod p with fixed length for all x, agreement, exponent range and provenance", "Coq proof + source constants regenerated into Coq + correspondence with scripted random source"),
- "C10": ("Coq theorems: decrypt . encrypt = id, size law, textbook CBC layout, IV = next source octets, failing source => error, total decryption, key size", "Coq proof over an abstract block cipher + differential correspondence incl. all 256 pad octets"),
+ "C10": ("Coq theorems: decrypt . encrypt = id, size law, textbook CBC layout, IV = next source octets, failing source => error, total decryption, key size, call sequences on one object (successive disjoint source windows, earlier ciphertexts stay valid)", "Coq proof over an abstract block cipher + differential correspondence incl. all 256 pad octets"),
  "C11": ("Coq theorems: to/decode transform inverse, soundness for all 2^16 identifiers and attribute shapes, RFC lengths, proposals", "Coq proof by case analysis + exhaustive identifier sweep against the implementation"),
  "C12": ("Coq theorem for every octet string: decode b = Ok m and encode m = Ok b' imply decode b' = Ok (norm m) and encode (norm m) = Ok b' (image lemma: the decoder's output, when re-encodable, lies in the round-trip domain; then the general round trip); canonical datagrams re-encode byte-identically", "Coq proof (image lemma over every payload decoder + general round trip) + accepted mutations / sweeps, domain decision evaluated on every accepted input as a cross-check"),
  "C13": ("Coq theorem: chains with unsupported payloads decode as without them iff none is critical, at any positions", "Coq proof by induction over the chain + exhaustive type-code sweep"),
